@@ -187,6 +187,10 @@ class MuxSocketTransportSink(ClientMessageSink):
       self._greenlets.append(self._SpawnNamedGreenlet('Send Loop', self._SendLoop))
 
       self._CheckInitialConnection()
+      if not self.isActive:
+        # The connection was lost (and this sink shut down) right after the
+        # initial connection check; don't resurrect the state to Open.
+        raise Exception('Transport was shut down while opening.')
       self._log.debug('Open successful')
       self._state = ChannelState.Open
       self._varz.active(1)
